@@ -10,8 +10,8 @@ used = {}
 for d in sorted(glob.glob('/verif/seeded/*/meta.json')):
     m = json.load(open(d))
     used.setdefault(m['property'], []).append(f"{m['name'].replace('-', ' ')} ({m['needs_to_manifest'][:110]})")
-GROUPS = [("A", "C01", "C12"), ("B", "C02", "C15"), ("C", "C03", "C17"), ("D", "C04", "C18"), ("E", "C05", "C19"),
-          ("F", "C06", "C20"), ("G", "C07", "C16"), ("H", "C08", "C10"), ("I", "C09", "C14"), ("J", "C11", "C13")]
+GROUPS = [("A", "C01", "C14"), ("B", "C02", "C13"), ("C", "C03", "C19"), ("D", "C04", "C20"), ("E", "C05", "C16"),
+          ("F", "C06", "C18"), ("G", "C07", "C17"), ("H", "C08", "C15"), ("I", "C09", "C12"), ("J", "C10", "C11")]
 ROUND_NOTE = sys.argv[3] if len(sys.argv) > 3 else ""
 HEAD = open('/verif/tools/SEED_PROMPT_HEAD.txt').read()
 for g, a, b in GROUPS:
